@@ -293,6 +293,25 @@ def r10_4_chunk_validator(chk):
         chk.consulted_functions.add(q)
 
 
+def _windowed_wrapper(it, st, sdw, n, frm):
+    """A SourceDataWrapper for the row window [frm, frm + n) of an unknown source, made by interpreting its own
+    constructor (so that it holds the window in whatever private form the class uses)."""
+    init = sdw.lookup("__init__")
+    dd = sdw.lookup("determine_dtypes")
+    if dd is not None:
+        it.summaries[dd.qualname] = lambda interp, args, kwargs, s, node: interp.val(s, OpaqueV("chunk dtype"))
+    obj = st.new_obj(sdw, tag="wrapper")
+    names = init.param_names
+    if not {"from_idx", "to_idx"} <= set(names):
+        raise AnalysisError("SourceDataWrapper.__init__ no longer takes from_idx / to_idx")
+    pos = [OpaqueV("source"), OpaqueV("mapping")]
+    outs = it.call_function(init, [obj] + pos, {"from_idx": IntV(frm), "to_idx": IntV(frm + n)}, st, init.node)
+    normal = [o for o in outs if o.kind == "val"]
+    if not normal:
+        raise AnalysisError("SourceDataWrapper.__init__ has no normal path for a valid row window")
+    return obj, normal[0].st
+
+
 # ---------------------------------------------------------------------------------------------------- R10.5
 def r10_5_tiling(chk):
     ix = chk.ix
@@ -329,9 +348,7 @@ def r10_5_tiling(chk):
             return None
         it.summaries[load.qualname] = load_summary
         # logging of the chunk plan is irrelevant
-        obj = st.new_obj(sdw, tag="wrapper", fields={"_n_rows": IntV(n), "_from_idx": IntV(frm),
-                                                     "_to_idx": IntV(frm + n), "_mapping": OpaqueV("mapping"),
-                                                     "_data_source": OpaqueV("source")})
+        obj, st = _windowed_wrapper(it, st, sdw, n, frm)
         ceq = ix.get_class("SourceDataWrapper").lookup("_check_equal_n_rows")
         if ceq is not None:
             it.summaries[ceq.qualname] = lambda interp, args, kwargs, s, node: interp.val(s, NONE)
